@@ -148,12 +148,15 @@ func (ex *Exec) callFn(fr *frame, fn *ssa.Function, args []Val, bind []Val, st *
 		v.T = resType(res)
 		return v
 	}
-	if c := ex.w.contracts[fn]; c != nil && (len(c.Requires)+len(c.Ensures) > 0 || c.HasMod || c.Trusted) && ex.pure == 0 && !(fr != nil && fr.top && fr.fn == fn && false) {
+	if c := ex.w.contracts[fn]; c != nil && !c.Inline && (len(c.Requires)+len(c.Ensures) > 0 || c.HasMod || c.Trusted) && ex.pure == 0 {
 		if !(c.Trusted && len(fn.Blocks) > 0 && ex.inRepo(fn) && len(c.Ensures) == 0) {
 			return ex.callContract(c, fn.Params, fn.Signature, args, st, reach, fr)
 		}
 	}
-	if len(fn.Blocks) > 0 && (ex.inRepo(fn) || fn.Synthetic != "" || inlineLib[key]) {
+	if len(fn.Blocks) > 0 && (ex.inRepo(fn) || fn.Synthetic != "" || inlineLib[key] || inlinePkgs[fnPkgPath(fn)]) {
+		if !ex.inRepo(fn) && fn.Synthetic == "" {
+			ex.used["dependency executed from its source (not assumed): "+key] = true
+		}
 		depth := 0
 		site := ""
 		var outer []string
@@ -189,6 +192,19 @@ func (ex *Exec) callFn(fr *frame, fn *ssa.Function, args []Val, bind []Val, st *
 		return tupleVal(res, rets)
 	}
 	return ex.callUnknown(ctx)
+}
+
+func fnPkgPath(fn *ssa.Function) string {
+	if fn.Pkg != nil {
+		return fn.Pkg.Pkg.Path()
+	}
+	if o := fn.Origin(); o != nil && o.Pkg != nil {
+		return o.Pkg.Pkg.Path()
+	}
+	if fn.Parent() != nil {
+		return fnPkgPath(fn.Parent())
+	}
+	return ""
 }
 
 func resType(res *types.Tuple) types.Type {
@@ -651,7 +667,11 @@ func (fr *frame) frameGoals(st *State, only map[string]bool) []string {
 			ex2 = append(ex2, not(eq("r!f", r)))
 		}
 		cond := and(append([]string{app("<=", "1", "r!f"), app("<=", "r!f", "top!0")}, ex2...)...)
-		goals = append(goals, "(forall ((r!f Int)) (! "+imp(cond, eq(sel(fin, "r!f"), sel(init, "r!f")))+" :pattern ("+sel(fin, "r!f")+")))")
+		if strings.Contains(fin, "(ite ") {
+			goals = append(goals, "(forall ((r!f Int)) "+imp(cond, eq(sel(fin, "r!f"), sel(init, "r!f")))+")")
+		} else {
+			goals = append(goals, "(forall ((r!f Int)) (! "+imp(cond, eq(sel(fin, "r!f"), sel(init, "r!f")))+" :pattern ("+sel(fin, "r!f")+")))")
+		}
 	}
 	return goals
 }
